@@ -11,7 +11,7 @@ open XPathV XPathV.Model XPathV.Facts
 variable {F : Type} [NumAlg F]
 
 /-- `dedupByKey` keeps only members of its input -/
-theorem dedup_subset (key : Ref → UInt64) (l : List Ref) (seen : List UInt64) :
+theorem dedup_subset (key : Ref → String) (l : List Ref) (seen : List String) :
     ∀ x ∈ dedupByKey key l seen, x ∈ l := by
   induction l generalizing seen with
   | nil => intro x hx; simp [dedupByKey] at hx
@@ -26,7 +26,7 @@ theorem dedup_subset (key : Ref → UInt64) (l : List Ref) (seen : List UInt64) 
       · exact List.mem_cons_of_mem _ (ih _ x hx)
 
 /-- every output key is new: outputs have pairwise distinct keys, none of them in `seen` -/
-theorem dedup_keys_fresh (key : Ref → UInt64) (l : List Ref) (seen : List UInt64) :
+theorem dedup_keys_fresh (key : Ref → String) (l : List Ref) (seen : List String) :
     (∀ x ∈ dedupByKey key l seen, key x ∉ seen) ∧ ((dedupByKey key l seen).map key).Nodup := by
   induction l generalizing seen with
   | nil => simp [dedupByKey]
@@ -53,7 +53,7 @@ theorem dedup_keys_fresh (key : Ref → UInt64) (l : List Ref) (seen : List UInt
         exact this.1 hky
 
 /-- with an injective key nothing is lost: every input node is in the output -/
-theorem dedup_complete (key : Ref → UInt64) (l : List Ref) (seen : List UInt64)
+theorem dedup_complete (key : Ref → String) (l : List Ref) (seen : List String)
     (hinj : ∀ a ∈ l, ∀ b ∈ l, key a = key b → a = b) :
     ∀ x ∈ l, key x ∉ seen → x ∈ dedupByKey key l seen := by
   induction l generalizing seen with
@@ -86,7 +86,7 @@ theorem nodup_of_map {α β : Type} (f : α → β) (l : List α) (h : (l.map f)
     simp only [List.map_cons, List.nodup_cons] at h ⊢
     exact ⟨fun ha => h.1 (List.mem_map.mpr ⟨a, ha, rfl⟩), ih h.2⟩
 
-/-- **union**: given collision-free identity hashes on the nodes involved, `A | B` returns exactly
+/-- **union**: given pairwise different node keys on the nodes involved, `A | B` returns exactly
 the nodes of A and B, each once -/
 theorem C11_union (d : Doc) (cfg : ECfg) (l r : Plan) (c : Ref) (a b : List Item)
     (ha : sel (F := F) d cfg l c = .ok a) (hb : sel (F := F) d cfg r c = .ok b)
@@ -125,7 +125,7 @@ theorem sequence_is_union (f : Nat) (cfg : PCfg) (inp opnd o2 : Ast) (st st1 st2
 
 /-- **key injectivity**: on a well-formed document whose elements have no two attributes with the same
 (prefix, name) and no attribute with an empty name, two valid nodes with the same structured key
-(name parts + sibling-index path, exactly what `getHashCode` renders with length prefixes) are the
+(name parts + sibling-index path, exactly what `getNodeKey` renders after the node-type tag, with length prefixes) are the
 same node.  The pinned key (no length prefixes, no prefix part) failed this. -/
 theorem key_injective {d : Doc} (wf : WF d) (hd : AttrNamesDistinct d) (hne : AttrNamesNonEmpty d)
     (r₁ r₂ : Ref) (h₁ : validRef d r₁ = true) (h₂ : validRef d r₂ = true)
